@@ -486,43 +486,54 @@ func (sms *sqlMetadataStore) ListMultipartUploads(ctx context.Context, tx *sql.T
 			objectEntities = objectEntities[:opts.MaxUploads]
 		}
 	} else {
-		keyCount, err := sms.objectRepository.CountUploadsByBucketNameAndPrefixAndKeyMarkerAndUploadIdMarker(ctx, tx, bucketName, prefix, keyMarker, uploadIdMarker)
-		if err != nil {
-			return nil, err
-		}
-		isTruncated = int32(*keyCount) > opts.MaxUploads
 		objectEntities, err = sms.objectRepository.FindUploadsByBucketNameAndPrefixAndKeyMarkerAndUploadIdMarkerOrderByKeyAscAndUploadIdAsc(ctx, tx, bucketName, prefix, keyMarker, uploadIdMarker)
 		if err != nil {
 			return nil, err
 		}
 	}
 
+	// When the listing continues after a common prefix, all uploads grouped
+	// under that common prefix have already been reported by it.
+	skipPrefix := ""
+	if commonPrefix := determineCommonPrefix(prefix, keyMarker, delimiter); uploadIdMarker == "" && commonPrefix != nil && *commonPrefix == keyMarker {
+		skipPrefix = keyMarker
+	}
+
 	nextKeyMarker := ""
 	nextUploadIdMarker := ""
 
+	// Uploads and common prefixes form one sequence in key order (a common
+	// prefix stands at the position of its first key); MaxUploads limits the
+	// number of entries of that merged sequence.
 	for _, objectEntity := range objectEntities {
-		if delimiter != "" {
-			commonPrefix := determineCommonPrefix(prefix, objectEntity.Key.String(), delimiter)
-			if commonPrefix != nil {
-				if _, seen := commonPrefixSet[*commonPrefix]; !seen {
-					commonPrefixSet[*commonPrefix] = struct{}{}
-					commonPrefixes = append(commonPrefixes, *commonPrefix)
-				}
+		if skipPrefix != "" && strings.HasPrefix(objectEntity.Key.String(), skipPrefix) {
+			continue
+		}
+		commonPrefix := determineCommonPrefix(prefix, objectEntity.Key.String(), delimiter)
+		if commonPrefix != nil {
+			if _, seen := commonPrefixSet[*commonPrefix]; seen {
+				continue
 			}
 		}
-		if int32(len(uploads)) < opts.MaxUploads {
-			keyWithoutPrefix := strings.TrimPrefix(objectEntity.Key.String(), prefix)
-			if delimiter == "" || !strings.Contains(keyWithoutPrefix, delimiter) {
-				uploads = append(uploads, metadatastore.Upload{
-					Key:          objectEntity.Key,
-					UploadId:     *objectEntity.UploadId,
-					Initiated:    objectEntity.CreatedAt,
-					StorageClass: objectEntity.StorageClass,
-				})
-			}
-			nextKeyMarker = objectEntity.Key.String()
-			nextUploadIdMarker = objectEntity.UploadId.String()
+		if int32(len(uploads)+len(commonPrefixes)) >= opts.MaxUploads {
+			isTruncated = true
+			break
 		}
+		if commonPrefix != nil {
+			commonPrefixSet[*commonPrefix] = struct{}{}
+			commonPrefixes = append(commonPrefixes, *commonPrefix)
+			nextKeyMarker = *commonPrefix
+			nextUploadIdMarker = ""
+			continue
+		}
+		uploads = append(uploads, metadatastore.Upload{
+			Key:          objectEntity.Key,
+			UploadId:     *objectEntity.UploadId,
+			Initiated:    objectEntity.CreatedAt,
+			StorageClass: objectEntity.StorageClass,
+		})
+		nextKeyMarker = objectEntity.Key.String()
+		nextUploadIdMarker = objectEntity.UploadId.String()
 	}
 
 	listMultipartUploadsResult := metadatastore.ListMultipartUploadsResult{
